@@ -720,10 +720,10 @@ impl<'a> Sim<'a> {
         let len = self.reps[r].real.ops().len();
         if let Some(by) = grew_by {
             if len >= COUNT_LIMIT {
-                self.reps[r].limit_cross = Some(by);
-                if !self.flags.limit_crossed {
+                if self.reps[r].limit_cross.is_none() {
                     ctx.label(format!("limit_reached_by_{by}"));
                 }
+                self.reps[r].limit_cross = Some(by);
                 self.flags.limit_crossed = true;
             }
             if self.eager_verify {
@@ -1027,16 +1027,15 @@ pub fn check(case: &Case, ctx: &mut Ctx) {
             }
         }
         Step::Merge { into, from, verified } => {
-            let (a, b) = (pick_idx(*into, n), pick_idx(*from, n));
+            // always another replica (x∪x is covered by the merge-law checks)
+            let a = pick_idx(*into, n);
+            let b = (a + 1 + pick_idx(*from, n - 1)) % n;
             if let Some((iso, until)) = cut {
                 if idx < until && ((a == iso) != (b == iso)) {
                     *dropped = true;
                     ctx.label("merge_lost_to_partition");
                     return;
                 }
-            }
-            if a == b {
-                ctx.label("self_merge");
             }
             sim.merge(ctx, a, b, *verified);
         }
@@ -1513,9 +1512,20 @@ pub fn near_limit_strategy(writers_too: bool) -> BoxedStrategy<Case> {
         partition_strategy(40),
         sync_strategy(),
         (
-            prop_oneof![2 => 1015u16..=1023, 1 => 990u16..=1023],
+            prop_oneof![2 => 1010u16..=1023, 1 => 985u16..=1023],
             vec((0u16..40, prop_oneof![1 => Just(0u16), 3 => 0u16..=30]), 3),
-        ),
+            // 2 of 3 cases: every replica starts below the limit, so that the schedule itself
+            // (deliveries, merges) does the crossing
+            proptest::bool::weighted(0.67),
+        )
+            .prop_map(|(shared, own, below)| {
+                let room = (COUNT_LIMIT as u16 - 2).saturating_sub(shared);
+                let own = own
+                    .into_iter()
+                    .map(|(off, len)| (off, if below { len.min(room) } else { len }))
+                    .collect::<Vec<_>>();
+                (shared, own)
+            }),
     )
         .prop_map(|((perms, replicas, (oa, tw)), pool, steps, partition, sync, (shared, own))| Case {
             owner: 0,
